@@ -8,7 +8,7 @@
     redeem <erc> <pre> <toTok> <owner> <name> <amount> KV…
     report <name> <locker> <voter> <idx> <ok>   KV…
     send   <from> <to> <cur> <amount>           KV…
-    end    KV…                                   (uses N= names iterated, J= names with a job error)
+    end    KV…                                   (uses N= names iterated: the committed ongoing trackers)
   KV tokens: W=<a,b,…|-> S=<supply> EC=<cap> TC=<cap> ON=<T;T…|-> PA=… FA=… B=<addr:cur:amt,…|->
   tracker T = typ/state/name/owner/amount/toTok/<w,w,…|->/<votes digits|->  (typ 1 lock 2 redeem 3 lockERC 4 redeemERC)
   output: res <0|1|panic> <tag> ON=… PA=… FA=… B=…   (stores sorted by name)
@@ -136,7 +136,7 @@ def runLine (toks : List String) : Option String :=
     pure (showOut (step x.cfg x.st op))
   | "end" :: kv => do
     let x ← parseKVs kv
-    pure (showOut (step x.cfg x.st (Op.endBlock x.names x.jobErr)))
+    pure (showOut (step x.cfg x.st (Op.endBlock x.names)))
   | _ => none
 
 def stepLine (line : String) : String :=
